@@ -113,11 +113,15 @@ def gen_case(rng, tier, exhaustive_small=None):
         "sort": rng.random() < 0.75,
         "ret": ret,
         "values": rng.choice(["plain"] * 6 + ["expr"] * 3 + ["cte"]),
-        "upsert": rng.choice(["none", "none", "none", "none", "nothing", "update", "update_bound"]),
+        "upsert": rng.choice(["none", "none", "none", "none", "nothing", "update", "update_bound", "update_bound"]),
         "omit": [k for k in ("y", "z") if rng.random() < 0.4],
-        "pre": rng.choice([0, 0, 1, 3]),
+        "pre": rng.choice([0, 0, 1, 3, 4]),
         "seed": rng.randrange(1 << 30),
         "fault": None,
+        # type of column x: Integer or a TypeDecorator with bind_expression/column_expression
+        "xtype": rng.choice(["int", "int", "bindexpr", "colexpr", "both"]),
+        # DO UPDATE variants: how many parameter sets hit a pre-existing row (by tag)
+        "conflicts": rng.choice([0, 1, 2, 3, 3]),
     }
     if rng.random() < 0.15 and ret not in ("none", "defaults"):
         case["fault"] = [rng.choice(["dup", "drop", "alter"]), rng.randrange(4), rng.randrange(4), rng.randrange(4)]
@@ -133,7 +137,7 @@ def build(case):
     from sqlalchemy.dialects import sqlite as sqlite_d
     from sqlalchemy.sql.compiler import InsertmanyvaluesSentinelOpts
 
-    from harness.lib_dml import make_engine
+    from harness.lib_dml import decorated_type, make_engine
 
     rng = random.Random(case["seed"])
     kw = {}
@@ -186,7 +190,7 @@ def build(case):
         m,
         *pk,
         Column("tag", Integer, nullable=False, unique=True),
-        Column("x", Integer),
+        Column("x", decorated_type(case.get("xtype", "int"))),
         Column("y", Integer, default=5),
         Column("z", Integer),
     )
@@ -219,6 +223,13 @@ def build(case):
     hub.reset()
 
     params, expected = [], {}
+    # (return_defaults: "inserted primary key" of a row that was updated instead is the
+    # client-generated key that was never stored - not a C12 question, so no conflicts)
+    nconf = min(case.get("conflicts", 0), pre, n) if case["upsert"] in ("update", "update_bound") and case["ret"] != "defaults" else 0
+    conf_at = {}
+    if nconf:
+        for j, i in enumerate(random.Random(case["seed"] ^ 0xC0F).sample(range(n), nconf)):
+            conf_at[i] = n + j  # parameter set i hits pre-existing row j
     for i in range(n):
         p = dict(keycols(i), tag=tags[i], x=rng.choice([None, 0, 1, 7, -3, 12345]))
         exp = dict(p)
@@ -237,7 +248,16 @@ def build(case):
         else:
             exp["z"] = None
         if case["upsert"] == "update_bound":
-            p["newx"] = 77
+            p["newx"] = 700 + i  # a different value for every parameter set
+        if i in conf_at:
+            # this parameter set collides (on tag) with a pre-existing row: DO UPDATE SET x
+            j = conf_at[i]
+            p["tag"] = tags[j]
+            exp = dict(keycols(j), tag=tags[j], y=-1, z=-1, _conf=True)
+            exp["x"] = p["newx"] if case["upsert"] == "update_bound" else p["x"]
+            params.append(p)
+            expected[tags[j]] = exp
+            continue
         params.append(p)
         expected[tags[i]] = exp
 
@@ -369,14 +389,15 @@ def oracle(obs):
         return ("c12-exception:" + obs["exc"].split(":")[0].replace(" ", "-"), "unexpected %s" % obs.get("exc_text"))
     # table contents: every parameter set exactly once, with its values
     pre_rows = [r for r in obs["db"] if r["tag"] not in expected]
-    if len(pre_rows) != case["pre"] or any(r["x"] != -1 for r in pre_rows):
+    nconf = sum(1 for e in expected.values() if e.get("_conf"))
+    if len(pre_rows) != case["pre"] - nconf or any(r["x"] != -1 for r in pre_rows):
         return ("c12-db-preexisting-rows-changed", "pre-existing rows: %s" % pre_rows)
     if sorted(db_by_tag) != sorted(list(expected) + [r["tag"] for r in pre_rows]):
         return ("c12-db-rowset", "tags in table %s, expected %s" % (sorted(db_by_tag), sorted(expected)))
     for tag, exp in expected.items():
         row = db_by_tag[tag]
         for k, v in exp.items():
-            if k in ("zz", "newx"):
+            if k in ("zz", "newx", "_conf"):
                 continue
             if row[k] != v:
                 return ("c12-db-values", "row tag=%s column %s stored %r expected %r" % (tag, k, row[k], v))
